@@ -36,6 +36,21 @@ def style_filter(fn, name=None):
            else:         filtr = lambda c: True
        -> function(arg_symbol_name) -> cond,  plus the If node.  None if absent."""
     for st in walk_local(fn):
+        # the same two lambdas selected by a conditional expression: filtr = (lambda ..) if use_style else (lambda ..)
+        if isinstance(st, ast.Assign) and len(st.targets) == 1 and isinstance(st.targets[0], ast.Name) and isinstance(st.value, ast.IfExp) \
+                and isinstance(st.value.body, ast.Lambda) and isinstance(st.value.orelse, ast.Lambda) \
+                and (name is None or norm(st.targets[0]) == name):
+            def g(argname, tx_factory, st=st):
+                tx = tx_factory()
+                c = tx.cond(st.value.test)
+                res = []
+                for lam in (st.value.body, st.value.orelse):
+                    p = lam.args.args[0].arg
+                    t2 = tx.child({**tx.env, p: E(S(argname))})
+                    res.append(t2.cond(lam.body))
+                return c_or(c_and(c, res[0]), c_and(c_not(c), res[1]))
+            g.name = norm(st.targets[0])
+            return g, st
         if isinstance(st, ast.If) and len(st.body) == 1 and len(st.orelse) == 1:
             a, b = st.body[0], st.orelse[0]
             if all(isinstance(x, ast.Assign) and len(x.targets) == 1 and isinstance(x.targets[0], ast.Name)
